@@ -913,9 +913,12 @@ func (t *Transport) roundTrip(req *http.Request) (resp *http.Response, err error
 		return nil, errors.New("http: nil Request.URL")
 	}
 
-	resp, err = t.checkAltSvc(req)
-	if err != nil || resp != nil {
-		return
+	// Alt-Svc upgrades apply to https requests without a forced protocol version only.
+	if t.forceHttpVersion == "" && req.URL.Scheme == "https" {
+		resp, err = t.checkAltSvc(req)
+		if err != nil || resp != nil {
+			return
+		}
 	}
 
 	scheme := req.URL.Scheme
